@@ -76,7 +76,6 @@ class _SolverBase(Contract):
         self.maxit = g.real('maxit', lo=0.0, hi=100.0)
 
 
-@register
 class IK_constrained_solver(_SolverBase):
     """IKinSpaceConstrained: success => |angular part of the error twist| <= rotation tolerance and |linear part| <=
     position tolerance for the returned joint vector, which lies inside the joint limits (start inside the limits)"""
@@ -152,3 +151,7 @@ class IK_free_solver(_SolverBase):
         nw, nv = norms(E)
         g.holds('success => |angular error| <= eomg and |linear error| <= ev',
                 T.implies(T.SB_lift(success), T.sand(T.le(nw, self.rot_tol), T.le(nv, self.pos_tol))))
+
+
+register(type('IK_constrained_solver_1', (IK_constrained_solver,), dict(n=1, shape_bound='1 joint (invariant independent of chain length)')))
+register(type('IK_constrained_solver_2', (IK_constrained_solver,), dict(n=2, tier='thorough')))
